@@ -595,8 +595,11 @@ func funcChanged(rel string, fd *ast.FuncDecl) bool {
 	if fd.Recv != nil && len(fd.Recv.List) > 0 {
 		key += recvName(fd.Recv.List[0].Type) + "."
 	}
+	// the recorded hashes are of the declaration printed WITHOUT its doc comment (funcHashes parses without comments)
+	tmp := *fd
+	tmp.Doc = nil
 	var buf bytes.Buffer
-	_ = printer.Fprint(&buf, token.NewFileSet(), fd)
+	_ = printer.Fprint(&buf, token.NewFileSet(), &tmp)
 	h := sha256.Sum256(buf.Bytes())
 	return baseHash[key+fd.Name.Name] != hex.EncodeToString(h[:8])
 }
@@ -616,6 +619,7 @@ func normaliseChanged(rel string, orig, fd *ast.FuncDecl) *ast.FuncDecl {
 	c := f.Decls[0].(*ast.FuncDecl)
 	before := printNode(c)
 	rewriteChains(c.Body.List)
+	earlyContinue(c.Body)
 	after := printNode(c)
 	if after == before {
 		return fd
@@ -628,4 +632,33 @@ func normaliseChanged(rel string, orig, fd *ast.FuncDecl) *ast.FuncDecl {
 	nfd := nf.Decls[0].(*ast.FuncDecl)
 	inlinedSrc[fset.File(nfd.Pos())] = []byte(text)
 	return nfd
+}
+
+// earlyContinue: `for … { …; if c { A } else { B } }` is presented as `for … { …; if c { A; continue }; B }` (the form the
+// sources use throughout and the generators were written against)
+func earlyContinue(root ast.Node) {
+	ast.Inspect(root, func(n ast.Node) bool {
+		var body *ast.BlockStmt
+		switch x := n.(type) {
+		case *ast.ForStmt:
+			body = x.Body
+		case *ast.RangeStmt:
+			body = x.Body
+		}
+		if body == nil || len(body.List) == 0 {
+			return true
+		}
+		last, ok := body.List[len(body.List)-1].(*ast.IfStmt)
+		if !ok || last.Else == nil {
+			return true
+		}
+		els, ok := last.Else.(*ast.BlockStmt)
+		if !ok {
+			return true
+		}
+		last.Body.List = append(last.Body.List, &ast.BranchStmt{Tok: token.CONTINUE})
+		last.Else = nil
+		body.List = append(body.List, els.List...)
+		return true
+	})
 }
